@@ -1,6 +1,6 @@
 /-
 Finite instance facts for C10 (kernel evaluation, `decide +kernel`): geometry hypotheses of
-the generic theorems on small Planar3DCode / RotatedPlanar3DCode lattices, and the two
+the generic theorems on small RotatedPlanar3DCode lattices, and the two
 documented negative instances (old assignment update D9, rotated-toric seam D10).
 -/
 import PanqecVerif.Proofs.SweepGeneric
@@ -29,16 +29,9 @@ theorem geometryOKRot_spec (lat : Lattice) (h : GeometryOKRot lat = true) :
   simp only [Bool.and_eq_true, decide_eq_true_eq] at h
   exact h
 
-/-- Planar3DCode sizes checked by the kernel -/
-def planarSizes : List (Nat × Nat × Nat) :=
-  [(1, 2, 3), (2, 1, 1), (2, 2, 2), (2, 3, 2), (3, 2, 2), (2, 2, 3), (3, 3, 3)]
-
 /-- RotatedPlanar3DCode sizes checked by the kernel -/
 def rotPlanarSizes : List (Nat × Nat × Nat) :=
   [(1, 2, 3), (2, 1, 1), (2, 2, 2), (3, 3, 2), (3, 2, 3), (3, 3, 3), (3, 4, 2)]
-
-theorem planar_geometry_instances :
-    ∀ s ∈ planarSizes, GeometryOK3D (planar3D s.1 s.2.1 s.2.2) = true := by decide +kernel
 
 theorem rotPlanar_geometry_instances :
     ∀ s ∈ rotPlanarSizes, GeometryOKRot (rotPlanar3D s.1 s.2.1 s.2.2) = true := by decide +kernel
